@@ -41,6 +41,8 @@ MUTANTS = {
     "C17": [
         ("patch:own-c17-dump-aliasing",),
         ("patch:own-c17-dump-min-avg-coverage-reset",),
+        ("patch:own-c17-dump-resets-display-parameters",),
+        ("patch:own-c17-refused-sample-line-names-archive",),
         ("dump-without-indel-sites", "aldy/sam.py", "                    self._indel_sites,  # TODO: remove", "                    {k: [0, 0] for k in self._indel_sites},"),
         ("dump-without-phases", "aldy/sam.py", "                    [v for v in self.phases.values() if len(v) > 1],", "                    [],"),
         ("dump-without-neutral-depth", "aldy/sam.py", "                    self._dump_cn,\n                    {p: Counter(q) for p, q in norm.items()},", "                    {k: v // 2 for k, v in self._dump_cn.items()},\n                    {p: Counter(q) for p, q in norm.items()},"),
